@@ -3,7 +3,7 @@ CONSTANTS
   MaxN = 3
   MaxWant = 2
   MaxRetries = 2
-  KindSet = {"ok1", "ok2", "s403", "s503", "connerr"}
+  KindSet = {"ok1", "ok2", "s403", "s503", "connerr", "okcut"}
   MaxHist = 30
 INVARIANTS Emit
 CHECK_DEADLOCK FALSE
